@@ -9,11 +9,13 @@ def run(run):
     quick = run.tier == 'quick'
     langs = run.libs()
     run.rule = ('cases = (language, model) pairs emitted by TLC (Gen_Graph) x {same process twice, fresh processes with '
-                'PYTHONHASHSEED in {0, 1, 2, seed}} x {direct API, create_attack_graph from .mar + json, from .mar + yml}; '
+                'PYTHONHASHSEED in {0, 1, 2, seed}} x {direct API from .mar + json, create_attack_graph from .mar + yml, from .mar + json, from .mal (printed by Tok) + json}; '
                 'oracle: textual equality of json.dumps(graph._to_dict()); non-trivial = pair with at least one expected edge')
+    from harness import common
+    toks = common.dump_lang_tokens()
     seeds = (0, 1, 2, run.seed + 3)
-    plan = [('LTiny', 3, 10), ('LSet', 3, 8), ('LTrans', 3, 8), ('LDef', 3, 8), ('LVar', 3, 6), ('LDup', 3, 6), ('LInh', 2, 6)]
+    plan = [('LTiny', 3, 8), ('LSet', 3, 6), ('LTrans', 3, 6), ('LDef', 3, 6), ('LVar', 3, 5), ('LDup', 3, 5), ('LInh', 2, 4)]
     for lang, depth, n in plan:
-        run.gen_replay('Gen_Graph', 'Gen_Graph.cfg', 'harness.replay_determinism', {'langs': langs, 'hashseeds': seeds},
+        run.gen_replay('Gen_Graph', 'Gen_Graph.cfg', 'harness.replay_determinism', {'langs': langs, 'hashseeds': seeds, 'toks': toks},
                        env={'VERIF_LANG': lang, 'VERIF_DEPTH': depth, 'VERIF_MINASSETS': 2}, timeout=900, workers=4,
                        max_cases=n if quick else n * 12, name='%s: first %d models with >= 2 assets' % (lang, n if quick else n * 12))
